@@ -74,18 +74,11 @@ Theorem C12_numeral_denotation_hex : forall ds, go_hex ds = s_hex ds.
 Proof. exact go_hex_correct. Qed.
 Print Assumptions C12_numeral_denotation_hex.
 
-(* decimal integer numerals: an integer if it fits, else a float — true of the
-   code below 2^63 and from 2^64 on … *)
-Theorem C12_numeral_denotation_dec_partial : forall ds, digits_ok 10 ds ->
-  let n := digits_val 10 ds 0 in (n < 2 ^ 63 \/ 2 ^ 64 <= n)%Z -> go_dec ds = s_dec ds.
-Proof. exact go_dec_partial. Qed.
-Print Assumptions C12_numeral_denotation_dec_partial.
-
-(* … and false in between (defect C12-decimal-overflow-integer, witness
-   9223372036854775808; replayed on the Go code by the check) *)
-Theorem C12_numeral_denotation_dec_refuted : exists ds, digits_ok 10 ds /\ go_dec ds <> s_dec ds.
-Proof. exact go_dec_refuted. Qed.
-Print Assumptions C12_numeral_denotation_dec_refuted.
+(* decimal integer numerals: an integer if it fits int64, else a float
+   (ast.NewNumber as repaired: ParseInt, then ParseFloat) *)
+Theorem C12_numeral_denotation_dec : forall ds, go_dec ds = s_dec ds.
+Proof. exact go_dec_correct. Qed.
+Print Assumptions C12_numeral_denotation_dec.
 
 (* ---- string literals (manual §3.1) *)
 (* every byte string has a spelling with escapes, and it denotes the string *)
